@@ -10,6 +10,7 @@ import itertools
 import re
 import textwrap
 import traceback
+import warnings
 from pathlib import Path
 from types import MappingProxyType
 from typing import (
@@ -587,6 +588,32 @@ def is_valid_python(source: str) -> bool:
     except (SyntaxError, ValueError):
         # ValueError: for example null bytes, or an f-string the parser chokes on
         return False
+
+
+@functools.lru_cache(maxsize=100)
+def _compiles(source: str) -> bool:
+    try:
+        with warnings.catch_warnings():
+            warnings.simplefilter("ignore")
+            compile(source, "<pyrefact>", "exec", dont_inherit=True)
+        return True
+    except (SyntaxError, ValueError, OverflowError, RecursionError, MemoryError):
+        return False
+
+
+def is_still_valid_python(source: str, new_source: str) -> bool:
+    """Determine if new_source is valid python, in the way that source is.
+
+    Code may be parsed without a problem, and still not be something that python will run: a
+    return or yield outside of a function, a yield or walrus at a place in a comprehension
+    where there cannot be one, a nonlocal statement for a name that no longer exists. That is
+    fine for a snippet that was like that from the start, but not something to make of a module
+    that was not.
+    """
+    if not is_valid_python(new_source):
+        return False
+
+    return _compiles(new_source) or not _compiles(source)
 
 
 def has_side_effect(node: ast.AST, safe_callable_whitelist: Collection[str] = frozenset()) -> bool:
